@@ -29,7 +29,10 @@ var (
 	errCreateNewDirectory = errors.New("failed to create new directory")
 	errDAGFileEmpty       = errors.New("dagFile is empty")
 
-	rTimestamp = regexp.MustCompile(`2\d{7}.\d{2}:\d{2}:\d{2}`)
+	// the start time of a history file: the stamp (with milliseconds, when present)
+	// that ends the base name, in front of the optional request id, "_c" and ".dat".
+	// Anchoring it there keeps stamp-like text in the data directory or the DAG name out.
+	rTimestamp = regexp.MustCompile(`(2\d{7}.\d{2}:\d{2}:\d{2}(?:\.\d{3})?)(?:\.[^./]*)?(?:_c)?\.dat$`)
 )
 
 const (
@@ -366,7 +369,11 @@ func filterLatest(files []string, n int) []string {
 }
 
 func timestamp(file string) string {
-	return rTimestamp.FindString(file)
+	m := rTimestamp.FindStringSubmatch(file)
+	if m == nil {
+		return ""
+	}
+	return m[1]
 }
 
 func readLineFrom(f *os.File, offset int64) ([]byte, error) {
